@@ -45,6 +45,39 @@ struct bidi_it {
     friend bool operator==(bidi_it a, bidi_it b) { return a.p == b.p; }
     friend bool operator!=(bidi_it a, bidi_it b) { return a.p != b.p; }
 };
+// random-access iterator that is (base pointer, index): all iterator arithmetic and comparisons are integer operations on the
+// index, elements are reached as base[index]
+template <typename V, typename Tag, typename Diff>
+struct ra_it {
+    using iterator_category = Tag;
+    using value_type        = V;
+    using difference_type   = Diff;
+    using pointer           = V*;
+    using reference         = V&;
+    V* base;
+    Diff i;
+    ra_it() : base(nullptr), i(0) { }
+    ra_it(V* b, Diff k) : base(b), i(k) { }
+    reference operator*() const { return base[i]; }
+    pointer operator->() const { return base + i; }
+    reference operator[](Diff n) const { return base[i + n]; }
+    ra_it& operator++() { ++i; return *this; }
+    ra_it operator++(int) { ra_it t = *this; ++i; return t; }
+    ra_it& operator--() { --i; return *this; }
+    ra_it operator--(int) { ra_it t = *this; --i; return t; }
+    ra_it& operator+=(Diff n) { i += n; return *this; }
+    ra_it& operator-=(Diff n) { i -= n; return *this; }
+    friend ra_it operator+(ra_it a, Diff n) { return ra_it(a.base, a.i + n); }
+    friend ra_it operator+(Diff n, ra_it a) { return ra_it(a.base, a.i + n); }
+    friend ra_it operator-(ra_it a, Diff n) { return ra_it(a.base, a.i - n); }
+    friend Diff operator-(ra_it a, ra_it b) { return a.i - b.i; }
+    friend bool operator==(ra_it a, ra_it b) { return a.i == b.i; }
+    friend bool operator!=(ra_it a, ra_it b) { return a.i != b.i; }
+    friend bool operator<(ra_it a, ra_it b) { return a.i < b.i; }
+    friend bool operator>(ra_it a, ra_it b) { return a.i > b.i; }
+    friend bool operator<=(ra_it a, ra_it b) { return a.i <= b.i; }
+    friend bool operator>=(ra_it a, ra_it b) { return a.i >= b.i; }
+};
 // single-pass input iterator over stream ID: dereferencing a copy that lags behind the stream front is recorded
 template <typename V, typename Tag, typename Diff, int ID>
 struct in_it {
